@@ -5,6 +5,7 @@ import copy
 import common
 import cimgen
 import cimproto
+import c01mal
 
 PROP = 'C01'
 
@@ -343,7 +344,8 @@ def run(run):
                 'astral characters, names in random case, keybindings of every type with nested references, paths with/'
                 'without host/namespace, embedded instances/classes to depth 3, all flavor/class_origin/propagated/'
                 'array_size combinations); each object gives 3 K comparisons (encoder bytes, decoder object, text layer); '
-                'non-trivial = object has at least one value or child element; distinct by XML text')
+                'non-trivial = object has at least one value or child element; distinct by XML text; plus a malformed '
+                'stream: tupletrees of such objects with 1-3 tree mutations, decoder outcome compared with parse_any')
     run.assumptions += [
         'Codec hypothesis record (IEEE-754 text conversion, CIMDateTime(str), expat parse of embedded-object text) is '
         'instantiated by tables computed with Python for the inputs of this run',
@@ -431,6 +433,22 @@ def run(run):
             run.count('txt:' + ('ok' if real['text'] is not None else 'rejected'))
             if a != real:
                 run.disagree({'text': cimproto.cps(o)}, a, real, 'text layer: wireText/wireAttr vs minidom+expat')
+    # malformed stream: real tupletrees with 1-3 tree mutations (attribute values / names, dropped, duplicated,
+    # renamed, grafted children, case-variant duplicates, text); `decode` against TupleParser.parse_any — outcome
+    # class, and the object when both accept.  Skipped (counted): a negative ARRAYSIZE (array sizes are Nat in the
+    # model) and trees whose real result is not one of the nine object kinds (top-level elements outside the model).
+    mal = c01mal.gen_cases(run.rng, 15000 if run.thorough else 1500, run.count)
+    for (tt, kinds, _, real), ans in zip(mal, common.run_driver(PROP, [c[2] for c in mal]) if mal else []):
+        run.evaluations += 1
+        real, ans = c01mal.canon(real), c01mal.canon(ans)
+        run.count('mal:' + c01mal.outcome(real))
+        if ans != real:
+            d = diff(real, ans) if ('ok' in real and 'ok' in ans) else None
+            run.disagree({'tree': repr(tt)[:3000], 'mutations': kinds},
+                         {'outcome': c01mal.outcome(ans), 'diff_at': d[0] if d else None,
+                          'model': str(d[2])[:300] if d else None},
+                         {'outcome': c01mal.outcome(real), 'real': str(d[1])[:300] if d else None},
+                         'decoder on a malformed tree: decode(tupletree) vs TupleParser.parse_any')
     # oracle on the real code
     for o in objs:
         oracle(run, o, obj_case(o))
